@@ -158,6 +158,8 @@ pub(crate) fn traverse_with_callbacks(
     resolved_stops: &mut ColorStopVec,
     recurse_depth: usize,
 ) -> Result<(), PaintError> {
+    #[cfg(googlefonts_fontations_verif)]
+    verif::count_visit();
     if recurse_depth >= MAX_TRAVERSAL_DEPTH {
         return Err(PaintError::DepthLimitExceeded);
     }
@@ -591,6 +593,23 @@ pub(crate) fn traverse_with_callbacks(
             painter.pop_layer_with_mode(CompositeMode::SrcOver);
             result
         }
+    }
+}
+
+/// Verification hook (H5): thread-local count of paint node visits
+/// (entries of `traverse_with_callbacks`), invisible to a `ColorPainter` otherwise.
+#[cfg(googlefonts_fontations_verif)]
+pub mod verif {
+    use std::cell::Cell;
+    thread_local! {
+        static VISITS: Cell<u64> = const { Cell::new(0) };
+    }
+    pub(super) fn count_visit() {
+        VISITS.with(|v| v.set(v.get() + 1));
+    }
+    /// Returns the number of visits since the last call and resets the counter.
+    pub fn take_visits() -> u64 {
+        VISITS.with(|v| v.replace(0))
     }
 }
 
